@@ -176,11 +176,12 @@ def make_graph(rng, quick, hostile=False, clash=False, shape=None, extra=None, s
             old_k = own[0]; new_k = (old_k[0], "s", "P&V <%s>" % old_k[2][:6])
             g.nodes[new_k] = g.nodes.pop(old_k); g.order[g.order.index(old_k)] = new_k
             g.refs = [tuple(new_k if x == old_k else x for x in r) for r in g.refs]
+            # (no node ATTRIBUTE names it: identifiers spliced raw into attributes are a recorded finding of their own and would absorb what this shape shows)
             for n_ in g.nodes.values():
                 for a_, v_ in list(n_["attrs"].items()):
-                    if v_ == old_k: n_["attrs"][a_] = new_k
+                    if v_ == old_k: n_["attrs"][a_] = (UA, "i", "85") if a_ != "DataType" else (UA, "i", "24")
             # ... and texts that literally contain entity-looking sequences (they must come back as they are)
-            g.nodes[new_k]["display"] = "R&amp;D &lt;x&gt;"; g.nodes[new_k]["desc"] = "&#65; &quot;q&quot; &amp;amp;"
+            g.nodes[new_k]["display"] = "R&amp;D &lt;x&gt;"; g.nodes[new_k]["desc"] = "&#65; ]]> &quot;q&quot; <![CDATA[x]]> &amp;amp;"
             others = [k for k in g.order if k[0] != new_k[0]]
             g.refs.append((new_k, rng.choice(others), (UA, "i", "35"))); g.refs.append((rng.choice(others), new_k, (UA, "i", "47")))
     if shape == "hub" and len(g.uris) >= 11:
